@@ -121,4 +121,7 @@ def confirm_defs(wrong):
             continue
         seen.add(cls)
         out += corpus.class_defs("edge%d" % k, [tuple(r) for r in cls])
+    # a wrong merge shows only where two edges are merged: definitions in which the de-duplication pass folds their targets
+    for k, w in enumerate([w for w in wrong if w.get("edges") and w["why"].startswith("merge")][:8]):
+        out += corpus.merge_defs("edge%d" % k, [[tuple(r) for r in c] for c in w["edges"]])
     return out
